@@ -563,11 +563,15 @@ class Index(IndexBase):
     def _iter_label(self,
             depth_level: tp.Optional[DepthLevelSpecifier] = None
             ) -> tp.Iterator[tp.Hashable]:
+        if self._recache:
+            self._update_array_cache()
         yield from self._labels
 
     def _iter_label_items(self,
             depth_level: tp.Optional[DepthLevelSpecifier] = None
             ) -> tp.Iterator[tp.Tuple[int, tp.Hashable]]:
+        if self._recache:
+            self._update_array_cache()
         yield from zip(self._positions, self._labels)
 
     @property
@@ -1004,6 +1008,9 @@ class Index(IndexBase):
         Args:
             key: a label key.
         '''
+        if self._recache:
+            self._update_array_cache()
+
         if self._map is None: # loc is iloc
             is_bool_array = key.__class__ is np.ndarray and key.dtype == DTYPE_BOOL #type: ignore
 
